@@ -74,10 +74,9 @@ def mirp_snapshot(m):
 
 
 def identities(v):
-    ids = {id(v), id(v.nodes), id(v.node_names), id(v.arcs)}
-    ids |= {id(n) for n in v.nodes}
-    ids |= {id(a) for a in v.arcs.values()}
-    return ids
+    """the mutable containers of a graph (node / arc objects are never modified in place by the package, so two graphs may share them
+    without being able to influence each other; actual interference is caught by the value snapshots)"""
+    return {id(v), id(v.nodes), id(v.node_names), id(v.arcs)}
 
 
 def fingerprint(o, form):
